@@ -154,7 +154,9 @@ structure BedE where
   e : Nat
   rest : String
 
-def segsOf (es : List (Nat × Nat)) : List SW.Seg := (SW.sweepAll 4294967295 es [] []).1
+/-- the depth segments the sweep emits: `(SW.sweepAll inf es [] []).1`, computed through `BZC.emitted` (theorem
+    `BZC.sweepAll_emitted`: the same list; `sweepAll` appends to its accumulator and is quadratic on long inputs) -/
+def segsOf (es : List (Nat × Nat)) : List SW.Seg := (BZC.emitted 4294967295 es []).map (·.1)
 
 /-- per-chromosome summary from the emitted segments and the cross-chromosome merge: `BSUM.ofSegs` / `BSUM.merge`
     (theorem `BSUM.mergeAll_ofSegs`) -/
